@@ -12,6 +12,11 @@
       clean), runs the owning property's quick check (must exit 1 with a
       VIOLATION line), optionally every other claimed check (--cross, must exit
       0), and reverts /repo. Prints a catch matrix.
+
+  selftest.py benign [--only NAME]
+      Applies every behaviour-preserving refactoring under benign/ to /repo and
+      runs the checks of the properties that depend on the touched code; all
+      must exit 0.
 """
 import glob, json, os, subprocess, sys, time, hashlib
 
@@ -54,7 +59,7 @@ def determinism(argv):
                 out = os.path.join(BUILD, "det-%s-%d-%d" % (prop, seed, vi))
                 env = dict(os.environ, VERIF_PROP=prop, VERIF_SEED=str(seed), VERIF_WORKER="0", VERIF_RUNS=str(runs if "race" not in binary else max(50, runs // 5)),
                            VERIF_SECS="100000", VERIF_OUT=out + ".json", VERIF_HASHLOG=out + ".log", VERIF_KNOWN=os.path.join(ROOT, "known_findings.json"),
-                           VERIF_REPLAY_DIR=os.path.join(BUILD, "replays"), GOMAXPROCS=gmp, GORACE=RACEOPTS + " log_path=" + out + ".race")
+                           VERIF_REPLAY_DIR=os.path.join(BUILD, "replays"), GOMAXPROCS=gmp, VERIF_STRICT_DETERMINISM="1", GORACE=RACEOPTS + " log_path=" + out + ".race")
                 procs.append((prop, seed, vi, out, env, os.path.join(BUILD, binary)))
     running = []
     results = {}
@@ -149,6 +154,46 @@ def mutants(argv):
     return 1 if missed else 0
 
 
+def benign(argv):
+    """Applies every behaviour-preserving refactoring under benign/ to /repo and runs the quick checks of the properties that
+    depend on the touched files; each must exit 0 (a VIOLATION here is a false alarm, exit 2 a broken check)."""
+    if not repo_clean():
+        print("/repo is not clean")
+        return 2
+    only = argv[argv.index("--only") + 1] if "--only" in argv else None
+    groups = {"reassembler.go": ["C01", "C02", "C03", "C10", "C11", "C19"], "audit.go": ["C08", "C16", "C17"], "netlink.go": ["C18", "C08", "C17"],
+              "aucoalesce/": ["C15"]}
+    rows = []
+    for d in sorted(glob.glob(os.path.join(ROOT, "benign", "*-*"))):
+        patch = os.path.join(d, "patch.diff")
+        if not os.path.exists(patch) or (only and only not in d):
+            continue
+        text = open(patch).read()
+        checks = []
+        for key, props in groups.items():
+            if ("b/" + key) in text:
+                for p in props:
+                    if p not in checks:
+                        checks.append(p)
+        if subprocess.run(["git", "-C", "/repo", "apply", patch]).returncode != 0:
+            rows.append((os.path.basename(d), "patch does not apply"))
+            continue
+        try:
+            res = []
+            for q in checks:
+                pq = subprocess.run([os.path.join(ROOT, "check"), q, "quick"], cwd=ROOT, stdout=subprocess.PIPE, stderr=subprocess.STDOUT, text=True,
+                                    env=dict(os.environ, VERIF_SECS_PER_WORKER=os.environ.get("VERIF_SECS_PER_WORKER", "10")))
+                res.append("%s:%d" % (q, pq.returncode))
+            rows.append((os.path.basename(d), " ".join(res)))
+        finally:
+            subprocess.run(["git", "-C", "/repo", "checkout", "--", "."])
+            subprocess.run(["git", "-C", "/repo", "clean", "-fdq"])
+        print(rows[-1], flush=True)
+    bad = [r for r in rows if any(not x.endswith(":0") for x in r[1].split())]
+    print("benign: %d refactorings, %d with a non-zero check" % (len(rows), len(bad)))
+    return 1 if bad else 0
+
+
 if __name__ == "__main__":
     if len(sys.argv) < 2:
         print(__doc__); sys.exit(2)
@@ -156,4 +201,6 @@ if __name__ == "__main__":
         sys.exit(determinism(sys.argv[2:]))
     if sys.argv[1] == "mutants":
         sys.exit(mutants(sys.argv[2:]))
+    if sys.argv[1] == "benign":
+        sys.exit(benign(sys.argv[2:]))
     print(__doc__); sys.exit(2)
